@@ -765,6 +765,75 @@ mod shimtest {
     }
 }
 
+// ---------------------------------------------------------------- library parsers: totality (C20) and response round trip (C15)
+mod parsers {
+    use super::*;
+    use crate::response::Response;
+    use crate::header::Header;
+    use crate::range::{ContentRange, Range};
+
+    pub fn response_inputs() -> Vec<Vec<u8>> {
+        let mut v: Vec<Vec<u8>> = vec![];
+        let base = "HTTP/1.1 200 OK\r\nHost: x\r\nContent-Type: text/plain\r\nContent-Length: 3\r\n\r\nabc";
+        v.push(base.as_bytes().to_vec());
+        for i in 0..base.len() { v.push(base.as_bytes()[..i].to_vec()); }
+        for s in ["HTTP/1.1 200 OK\r\nContent-Length: abc\r\n\r\n", "HTTP/1.1 200 OK\r\nContent-Length: -1\r\n\r\n", "HTTP/1.1 200 OK\r\nContent-Length: 99999999999999999999999\r\n\r\nx",
+                  "HTTP/1.1 999 OK\r\n\r\n", "HTTP/1.1 200 Nope\r\n\r\n", "HTTP/9.9 200 OK\r\n\r\n", "HTTP/1.1 200\r\n\r\n", "HTTP/1.1  200 OK\r\n\r\n", "\r\n", "", "HTTP/1.1 200 OK", "HTTP/1.1 200 OK\r\nNoColon\r\n\r\n",
+                  "HTTP/1.1 206 Partial Content\r\nContent-Type: multipart/byteranges; boundary=String_separator\r\n\r\n--String_separator\r\nContent-Type: text/plain\r\nContent-Range: bytes 0-1/9\r\n\r\nab\r\n--String_separator",
+                  "HTTP/1.1 206 Partial Content\r\nContent-Type: multipart/byteranges; boundary=String_separator\r\n\r\n--String_separator\r\nContent-Type: text/plain\r\nContent-Range\r\n\r\nab\r\n--String_separator",
+                  "HTTP/1.1 206 Partial Content\r\nContent-Type: multipart/byteranges; boundary=String_separator\r\n\r\n--String_separator\r\nContent-Type: text/plain\r\nContent-Range: bytes x-y/z\r\n\r\nab\r\n--String_separator",
+                  "HTTP/1.1 206 Partial Content\r\nContent-Type: multipart/byteranges; boundary=String_separator\r\n\r\nab\r\n",
+                  "HTTP/1.1 206 Partial Content\r\nContent-Type: multipart/byteranges\r\n\r\n--String_separator\r\n",
+                  "HTTP/1.1 206 Partial Content\r\nContent-Type: multipart/byteranges; boundary=\r\n\r\n\r\n",
+                  "HTTP/1.1 206 Partial Content\r\nContent-Type: multipart/byteranges; boundary=b\r\n\r\n--b\r\nContent-Type: t\r\nContent-Range: bytes 5-1/9\r\n\r\n"] {
+            v.push(s.as_bytes().to_vec());
+        }
+        v.push(vec![0xff, 0xfe, 0x00]);
+        v.push(b"HTTP/1.1 200 OK\r\nX: \xff\r\n\r\n".to_vec());
+        v
+    }
+    pub fn search(seed: u64) -> bool {
+        let mut h = Hits::new();
+        for (i, inp) in response_inputs().iter().enumerate() {
+            let x = inp.clone();
+            if panic::catch_unwind(move || { let _ = Response::parse(&x); }).is_err() { h.hit("parsers", "c20_panic_response_parse", "Response::parse", &i.to_string(), &format!("panic on {:?}", String::from_utf8_lossy(inp))); }
+        }
+        // C15: both serialisers, read back
+        let mut rng = Rng(seed | 1);
+        for i in 0..300u64 {
+            let (mut r, _m) = super::resp::case(seed.wrapping_add(i));
+            if r.content_range_list.is_empty() { continue; }
+            if r.content_range_list.len() == 1 {
+                // "a single body": the value the library itself builds for one body (Range::get_content_range): range 0..len, size len
+                let n = r.content_range_list[0].body.len() as u64;
+                r.content_range_list[0].range = Range { start: 0, end: n };
+                r.content_range_list[0].size = n.to_string();
+            }
+            let req = crate::request::Request { method: "GET".into(), request_uri: "/".into(), http_version: "HTTP/1.1".into(), headers: vec![], body: vec![] };
+            // both serialisers must agree (known finding F10: generate() drops the single part's Content-Type and mutates self)
+            let mut r2 = r.clone();
+            let g = r2.generate();
+            let bytes = Response::generate_response(r.clone(), req);
+            if g != bytes || r2.headers != r.headers {
+                h.hit("parsers", "c15_generate_differs", "Response::generate", &i.to_string(),
+                      &format!("generate() wrote {:?}... but generate_response wrote {:?}...; self.headers afterwards {:?}", String::from_utf8_lossy(&g[..g.len().min(160)]), String::from_utf8_lossy(&bytes[..bytes.len().min(160)]), r2.headers));
+            }
+            let back = panic::catch_unwind(|| Response::parse(&bytes));
+            let _ = &mut rng;
+            match back {
+                Err(_) => h.hit("parsers", "c15_roundtrip_panic", "Response::parse", &i.to_string(), "panic"),
+                Ok(Err(e)) => h.hit("parsers", "c15_roundtrip", "Response::parse", &i.to_string(), &format!("Err({}) for {:?}", e, r)),
+                Ok(Ok(p)) => {
+                    let same = p.status_code == r.status_code && p.reason_phrase == r.reason_phrase && p.content_range_list.len() == r.content_range_list.len()
+                        && p.content_range_list.iter().zip(r.content_range_list.iter()).all(|(a, b)| a.body == b.body && a.range == b.range && a.content_type == b.content_type);
+                    if !same { h.hit("parsers", "c15_roundtrip", "Response::parse", &i.to_string(), &format!("read back {:?} for {:?}", p, r)); }
+                }
+            }
+        }
+        h.n > 0
+    }
+}
+
 mod probe {
     use crate::request::Request;
     pub fn run() {
@@ -792,6 +861,7 @@ pub fn dispatch(args: &[String]) -> i32 {
         ("search", "request") => req::search(args.get(2).and_then(|s| s.parse().ok()).unwrap_or(1)),
         ("replay", "request") => req::replay(&args[2], &args[3]),
         ("search", "shims") => shimtest::search(args.get(2).and_then(|s| s.parse().ok()).unwrap_or(1)),
+        ("search", "parsers") => parsers::search(args.get(2).and_then(|s| s.parse().ok()).unwrap_or(1)),
         ("search", "range") => rng::search(args.get(2).and_then(|s| s.parse().ok()).unwrap_or(1)),
         ("replay", "range") => rng::replay(&args[2], &args[3]),
         _ => { eprintln!("unknown routine"); return 2; }
